@@ -3528,3 +3528,57 @@ func runSeekLookupScansAll(c *Ctx, rule string) {
 		c.OK(rule, "lake/data.LookupSeekRange returns before the end of the index", fn.Pos(), sprint(n)+" returns inside the loop, all on the end-of-index / error exit")
 	}
 }
+
+// ---- C16-N2: a null key satisfies no comparison with a literal.
+//
+// The range pruner orders a null key as the maximum and therefore prunes an object whose
+// non-null keys cannot match.  That is only sound if the filter itself never matches a null key
+// against a non-null literal.  The general comparison evaluator says so explicitly; the constant
+// fast path (expr.Comparison) must as well, instead of decoding the null as a zero value.
+func runConstCompareRefusesNull(c *Ctx, rule string) {
+	p := c.P
+	c.Rule(rule, "both comparison evaluators agree that null compared with a non-null literal is false: the predicate returned by expr.Comparison tests IsNull before it applies the type-specific comparison (as Compare.Eval does), so the pruner's treatment of null keys as never matching is sound")
+	fn := p.Func("runtime/sam/expr.Comparison")
+	if fn == nil {
+		c.Undecided(rule, "runtime/sam/expr.Comparison", "anchor does not resolve")
+		return
+	}
+	ok := false
+	for _, an := range fn.AnonFuncs {
+		var isNull ssa.Value
+		for _, ci := range allCalls(an) {
+			if nm := calleeName(ci.Common()); nm == "(super.Value).IsNull" || nm == "(*super.Value).IsNull" {
+				isNull, _ = ci.(ssa.Value)
+			}
+		}
+		if isNull == nil {
+			continue
+		}
+		for _, ci := range allCalls(an) {
+			cc := ci.Common()
+			if cc.IsInvoke() || cc.StaticCallee() != nil {
+				continue
+			}
+			// the dynamic call of the captured predicate
+			if falseEdgeDominatesOrSelf(isNull, ci.(ssa.Instruction).Block()) {
+				ok = true
+			}
+		}
+	}
+	// Compare.Eval: the null tests precede the type dispatch
+	ce := p.Func("(*runtime/sam/expr.Compare).Eval")
+	ceOK := false
+	if ce != nil {
+		for _, ci := range allCalls(ce) {
+			if nm := calleeName(ci.Common()); nm == "(super.Value).IsNull" || nm == "(*super.Value).IsNull" {
+				ceOK = true
+			}
+		}
+	}
+	switch {
+	case ok && ceOK:
+		c.OK(rule, "runtime/sam/expr.Comparison refuses null values", fn.Pos(), "IsNull is tested before the literal's comparison is applied, in both evaluators")
+	default:
+		c.Fail(rule, "runtime/sam/expr.Comparison refuses null values", fn.Pos(), "the constant comparison decodes a null value like a zero value (`k < 5` matches null(int64)) while the pruner treats a null key as the maximum: an object whose only matching row has a null key is pruned, so the optimized query returns fewer rows than a full scan")
+	}
+}
